@@ -58,8 +58,8 @@ Calls == [op : {"Join"}, addr : Addr, node : Node]
            \cup [op : {"Leave", "Exists", "Get"}, addr : Addr, node : {None}]
            \cup [op : {"MembersLen"}, addr : {None}, node : Node]
            \cup [op : {"Others"}, addr : Addr, node : Node]
-           \cup [op : {"Len"}, addr : {None}, node : {None}]
-Mutator(c) == c.op \in {"Join", "Leave"}
+           \cup [op : {"Len", "Empty"}, addr : {None}, node : {None}]
+Mutator(c) == c.op \in {"Join", "Leave"}       \* (Empty: everybody has left)
 (* an answer: b = added / removed / exists / found, n = node of the member found, *)
 (* l = a length, o = the number of other members                                   *)
 Rep(b, n, ln, o) == [b |-> b, n |-> n, l |-> ln, o |-> o]
@@ -73,6 +73,7 @@ AnswerIn(P, c) ==
     [] c.op = "Exists"     -> Rep(B2N(P[c.addr] # None), None, 0, 0)
     [] c.op = "Get"        -> Rep(B2N(P[c.addr] # None), P[c.addr], 0, 0)
     [] c.op = "Len"        -> Rep(0, None, Cardinality({a \in Addr : P[a] # None}), 0)
+    [] c.op = "Empty"      -> Rep(0, None, 0, 0)
     [] c.op = "MembersLen" -> Rep(0, None, Cardinality(MembersOfIn(P, c.node)), 0)
     [] c.op = "Others"     -> Rep(B2N(c.addr \in MembersOfIn(P, c.node)), None,
                                   Cardinality(MembersOfIn(P, c.node)),
@@ -80,6 +81,7 @@ AnswerIn(P, c) ==
 AfterIn(P, c) ==
   CASE c.op = "Join"  -> [P EXCEPT ![c.addr] = c.node]
     [] c.op = "Leave" -> [P EXCEPT ![c.addr] = None]
+    [] c.op = "Empty" -> [a \in Addr |-> None]
     [] OTHER          -> P
 Answer(c) == AnswerIn(present, c)
 Effect(c) == present' = AfterIn(present, c)
@@ -123,5 +125,6 @@ AnswerAtLin == [][\A g \in Procs :
                     (pend[g].st = "called" /\ pend'[g].st = "done") =>
                        /\ pend'[g].r = Answer(pend[g].c)
                        /\ (pend[g].c.op = "Join" => present'[pend[g].c.addr] = pend[g].c.node)
-                       /\ (pend[g].c.op = "Leave" => present'[pend[g].c.addr] = None)]_vars
+                       /\ (pend[g].c.op = "Leave" => present'[pend[g].c.addr] = None)
+                       /\ (pend[g].c.op = "Empty" => \A a \in Addr : present'[a] = None)]_vars
 =============================================================================
